@@ -24,6 +24,8 @@ type c27Case struct {
 	// Subs: which of the channels a,b,c the node subscribes to (bitmask)
 	Subs    int        `json:"subs"`
 	Entries []c27Entry `json:"entries"`
+	// Brief: channels (of those not subscribed) the node subscribed to and released again at once, before anything else
+	Brief int `json:"brief,omitempty"`
 }
 
 var c27Channels = []string{"a", "b", "c"}
@@ -31,6 +33,9 @@ var c27Kinds = []string{"honest", "honest", "honest", "tampered-body", "channel-
 
 func genC27(t *rapid.T) c27Case {
 	c := c27Case{Subs: rapid.IntRange(0, 7).Draw(t, "subs")}
+	if rapid.IntRange(0, 2).Draw(t, "hasbrief") == 0 {
+		c.Brief = rapid.IntRange(1, 7).Draw(t, "brief") &^ c.Subs
+	}
 	n := rapid.IntRange(1, 10).Draw(t, "n")
 	for i := 0; i < n; i++ {
 		c.Entries = append(c.Entries, c27Entry{
@@ -61,6 +66,15 @@ func checkC27(c c27Case) (o vstat.Outcome) {
 			if err := n.subscribe(ch); err != nil {
 				o.Discard = true
 				return
+			}
+		}
+	}
+	for i, ch := range c27Channels {
+		if c.Brief&(1<<i) != 0 && !subscribed[ch] {
+			// subscribed and released again right away: the node does not subscribe to this channel
+			if bs, err := n.ps.AddSubscription(n.ctx, gen.Key(0), ch); err == nil {
+				bs.Release()
+				o.Classes = append(o.Classes, "briefly-subscribed-channel")
 			}
 		}
 	}
